@@ -129,4 +129,4 @@ def shard_random(ctx, shard, nshards, n):
 
 def run(ctx):
     ctx.run_cases('doc', FIXED)
-    ctx.run_parallel('shard_random', extra=(ctx.pick(30, 1500),))
+    ctx.run_parallel('shard_random', extra=(ctx.pick(30, 600),))
